@@ -38,9 +38,22 @@ type Contract struct {
 	Params     []GhostParam // for trusted externals declared with a signature
 	Results    []GhostParam
 	Ghosts     []*Clause // "ghost var" declarations local to function
+	After      []*AfterClause
 	Used       bool
 	Line       int
 	File       string
+}
+
+// AfterClause: ghost assignment executed right after the first statement whose
+// source text starts with Match:   after "stmt prefix" set gv = expr
+type AfterClause struct {
+	Match  string
+	Before bool
+	Var    string
+	Expr  ast.Expr
+	Text  string
+	Line  int
+	Used  bool
 }
 
 type GhostParam struct {
@@ -76,12 +89,14 @@ type SpecFile struct {
 	Opaque    map[string]string
 	SortAlias map[string]string
 	Assumed   []string // free-text list of assumptions stated in the file
+	GhostVars   []GhostParam
+	GhostVarPkg []string
 }
 
 var clauseKw = map[string]bool{
 	"func": true, "requires": true, "ensures": true, "assigns": true, "loop": true, "decreases": true,
-	"ghost": true, "uf": true, "lemma": true, "axiom": true, "trusted": true, "pure": true, "opaque": true,
-	"sort": true, "free": true, "extern": true, "assume-note": true, "end": true,
+	"ghost": true, "after": true, "before": true, "uf": true, "lemma": true, "axiom": true, "trusted": true, "pure": true, "opaque": true,
+	"sort": true, "ghostvar": true, "free": true, "extern": true, "assume-note": true, "end": true,
 }
 
 var labelRe = regexp.MustCompile(`^\[([A-Za-z0-9_.\-]+)\]\s*`)
@@ -300,6 +315,35 @@ func ParseSpecFile(path, pkgName, pkgPath string, sf *SpecFile) error {
 			// opaque pkgpath.Name SortName
 			if len(fields) == 3 {
 				sf.Opaque[fields[1]] = fields[2]
+			}
+		case "after", "before":
+			if cur == nil {
+				return fmt.Errorf("%s:%d: after outside func", path, rc.line)
+			}
+			// after "prefix" set name = expr
+			q1 := strings.Index(rest, "\"")
+			q2 := strings.Index(rest[q1+1:], "\"")
+			if q1 < 0 || q2 < 0 {
+				return fmt.Errorf("%s:%d: after needs a quoted statement prefix", path, rc.line)
+			}
+			match := rest[q1+1 : q1+1+q2]
+			tail := strings.TrimSpace(rest[q1+q2+2:])
+			tail = strings.TrimSpace(strings.TrimPrefix(tail, "set"))
+			eqi := strings.Index(tail, "=")
+			if eqi < 0 {
+				return fmt.Errorf("%s:%d: after ... set var = expr", path, rc.line)
+			}
+			e, err := parseSpecExpr(strings.TrimSpace(tail[eqi+1:]), path, rc.line)
+			if err != nil {
+				return err
+			}
+			cur.After = append(cur.After, &AfterClause{Match: match, Before: kw == "before", Var: strings.TrimSpace(tail[:eqi]), Expr: e, Text: tail, Line: rc.line})
+		case "ghostvar":
+			// ghostvar name Type   — a global ghost variable (a heap component of its own)
+			f2 := strings.Fields(rest)
+			if len(f2) >= 2 {
+				sf.GhostVars = append(sf.GhostVars, GhostParam{Name: f2[0], Type: strings.TrimSpace(strings.TrimPrefix(rest, f2[0]))})
+				sf.GhostVarPkg = append(sf.GhostVarPkg, pkgPath)
 			}
 		case "sort":
 			// sort Alias = GoType
